@@ -180,8 +180,13 @@ def check(case) -> core.Out:
     out.dig = core.digest((mode, clsid, bf, payload, tuple(sorted(keep)) if subset is not None else None))
     out.sample = {"mode": mlabel, "definition": defname, "bf": bf,
                   "keywords": {k: kw[k] for k in list(kw)[:6]}, "expected_payload": want[:32]}
+    def fresh(d):
+        # the library may keep a reference to a list it is given: hand out copies
+        return {k_: (list(v_) if isinstance(v_, list) else v_) for k_, v_ in d.items()}
+
+    kw0 = fresh(kw)
     try:
-        built = pyubx2.UBXMessage(clsid[0:1], clsid[1:2], mode, parsebitfield=bf, **kw)
+        built = pyubx2.UBXMessage(clsid[0:1], clsid[1:2], mode, parsebitfield=bf, **fresh(kw0))
         got = built.payload or b""
     except Exception as err:  # noqa
         if tolerate_refusal and isinstance(err, C.ubx_errors()):
@@ -208,6 +213,18 @@ def check(case) -> core.Out:
                          f"field {fld}: built payload {got[:40].hex()} != expected {want[:40].hex()} "
                          f"(keywords {str({k: v for k, v in kw.items() if C.base_name(k) == fld})[:120]})"))
         return out
+    if C.scribble(built):
+        classes.append("rebuild-after-scribble")
+        try:
+            again = pyubx2.UBXMessage(clsid[0:1], clsid[1:2], mode, parsebitfield=bf, **fresh(kw0)).payload or b""
+        except Exception as err:  # noqa
+            again = repr(err).encode()
+        if again != want:
+            out.viol.append((key + "shared-value", "after the caller edited a list attribute of the first message, "
+                                                   f"building again from the same keywords gives {again[:40]!r:.90}"))
+            return out
+        built = pyubx2.UBXMessage(clsid[0:1], clsid[1:2], mode, parsebitfield=bf, **fresh(kw0))
+        kw = kw0
     # parsing the built message returns the supplied values
     try:
         back = dict(C.public_attrs(pyubx2.UBXReader.parse(built.serialize(), msgmode=mode, parsebitfield=bf)))
@@ -309,7 +326,10 @@ def run_shard(spec, ctx, acc):
                 (fname, _typ), = t.defn.items()
                 base = {"kind": "kw", "mode": t.mode, "clsid": t.clsid, "defname": t.defname}
                 txt = st.one_of(st.text(min_size=1, max_size=40),
-                                st.text(alphabet="abc °é€ß中", min_size=1, max_size=20))
+                                st.text(alphabet="abc °é€ß中", min_size=1, max_size=20),
+                                # not NFC-stable / byte-order mark / compatibility characters
+                                st.lists(st.sampled_from(["\u2126", "\u212b", "e\u0301", "\u1100\u1161", "\uf900",
+                                                          "\ufeff", "\ufb01", "\u00b5", "x"]), min_size=1, max_size=6).map("".join))
                 strat = st.tuples(txt, st.sampled_from([1, 0])).map(
                     lambda tb: dict(base, bf=tb[1], subset=None,
                                     nodes=[["f", fname, "CH", None, tb[0].encode("utf-8")]]))
